@@ -99,6 +99,9 @@ func c10Defects() []c10Defect {
 		{Name: "omitted-required-arg-under-used-key", Needs: "echo", Make: func(*world.TypeDef) *world.Sel {
 			return world.In("", echo(world.Arg{Name: "s", Value: "x"}, world.Arg{Name: "b", Value: true}), echo())
 		}, Names: ""},
+		// @include / @skip written without their required argument
+		{Name: "include-without-if-directive", Needs: "i", Make: func(*world.TypeDef) *world.Sel { return al(world.F("i")).With(world.Dir{Name: "include"}) }},
+		{Name: "skip-without-if-directive", Needs: "i", Make: func(*world.TypeDef) *world.Sel { return al(world.F("i")).With(world.Dir{Name: "skip"}) }},
 		{Name: "unknown-directive", Needs: "i", Make: func(*world.TypeDef) *world.Sel { return al(world.F("i")).With(world.Dir{Name: "zq7"}) }},
 		{Name: "misplaced-directive", Needs: "i", Make: func(*world.TypeDef) *world.Sel { return al(world.F("i")).With(world.Dir{Name: "deprecated"}) }},
 		{Name: "undefined-type-condition-inline", Make: func(td *world.TypeDef) *world.Sel { return world.In("Zq7", world.F("__typename")) }},
